@@ -42,6 +42,7 @@ struct sim_cfg {
 	uint64_t max_steps; /* cap on scheduling points per run */
 	uint64_t max_sim_ns; /* cap on simulated time (absolute) */
 	int trace; /* keep the full event log in memory (replay --trace) */
+	unsigned char stack_fill; /* every task's stack is pre-painted with this byte (C14 differential) */
 };
 
 enum sim_wake_reason { SIM_WOKEN = 0, SIM_TIMEOUT = 1, SIM_CANCELLED = 2 };
